@@ -124,7 +124,16 @@ func stressMutators(rounds, workers int, seed uint64) []string {
 				}
 			}(w)
 		}
-		wg.Wait()
+		finished := make(chan bool, 1)
+		go func() { wg.Wait(); finished <- true }()
+		select {
+		case <-finished:
+		case <-time.After(60 * time.Second):
+			report(fmt.Sprintf("round %d: the workers did not finish within 60s (deadlock: a lock left held, or a call that never returns)", round))
+			pmu.Lock()
+			defer pmu.Unlock()
+			return append([]string{}, problems...)
+		}
 		func() {
 			defer func() {
 				if r := recover(); r != nil {
